@@ -466,6 +466,7 @@ func (s *Server) handle(db string, cmd bson.D, seqs map[string][]bson.D) bson.D 
 				}
 			}
 			if dup {
+				s.Log = append(s.Log, fmt.Sprintf("DUP insert %s", ns))
 				werrs = append(werrs, bson.D{{Key: "index", Value: int32(i)}, {Key: "code", Value: int32(11000)}, {Key: "errmsg", Value: "E11000 duplicate key"}})
 				break
 			}
